@@ -59,5 +59,8 @@ package httpc
 //@   replay httpc_pointer_fields
 //@   loop 1 iteration-ensures [pointer-followed] calls(IsNil) == 1 && !ret(IsNil) && calls(Elem) == 1 && arg(Elem, 0) == at_head(rv) && rv == ret(Elem)
 //@   ensures [nil-pointer-means-unset] !result1 ==> result0 == "" && calls(fmt.Sprint) == 0 && tail(calls(IsNil) == 1 && ret(IsNil))
-//@   ensures [text-of-a-non-pointer] result1 ==> calls(fmt.Sprint) == 1 && result0 == ret(fmt.Sprint) && ret(Kind, 0, last) != 22
-//@   ensures [the-value-itself-is-rendered] result1 && calls(Interface) == 1 ==> arg(Interface, 0) == local(rv) && unbox(arg(fmt.Sprint, 0), []any)[0] == ret(Interface)
+//@   ensures [text-of-a-non-pointer] result1 ==> ret(Kind, 0, last) != 22 && (calls(fmt.Sprint) == 1 ==> result0 == ret(fmt.Sprint)) && calls(fmt.Sprint) + calls(json.Marshal) >= 1
+//@   ensures [the-value-itself-is-rendered] result1 && calls(fmt.Sprint) == 1 && calls(Interface) == 1 ==> arg(Interface, 0) == local(rv) && unbox(arg(fmt.Sprint, 0), []any)[0] == ret(Interface)
+// a list is sent in the form the server-side parser reads lists from strings: JSON ("[1,2]", not Go's "[1 2]")
+//@   replay-for lists-as-json httpc_list_fields
+//@   ensures [lists-as-json] result1 && (ret(Kind, 0, last) == 23 || ret(Kind, 0, last) == 17) && ret(local(rv).IsValid) ==> calls(json.Marshal) == 1 && arg(json.Marshal, 0) == ret(Interface, 0, 1) && (ret(json.Marshal, 1) == nil ==> result0 == bytes2str(ret(json.Marshal, 0)) && calls(fmt.Sprint) == 0)
